@@ -19,6 +19,9 @@ use hutil::{Args, Log, Rng, Stats};
 enum Op {
     Case(u64),
     Spawn(usize, Option<usize>, Option<String>),
+    SpawnInstant(usize, Option<usize>, Option<String>),
+    Link(usize, usize),
+    Unlink(usize, usize),
     PollSpawn(usize),
     DropSpawn(usize),
     Poll(usize),
@@ -44,6 +47,14 @@ impl std::fmt::Display for Op {
                 sup.map(|p| p.to_string()).unwrap_or_else(|| "-".into()),
                 name.clone().unwrap_or_else(|| "-".into())
             ),
+            Op::SpawnInstant(a, sup, name) => write!(
+                f,
+                "spawninstant {a} sup={} name={}",
+                sup.map(|p| p.to_string()).unwrap_or_else(|| "-".into()),
+                name.clone().unwrap_or_else(|| "-".into())
+            ),
+            Op::Link(a, p) => write!(f, "link {a} {p}"),
+            Op::Unlink(a, p) => write!(f, "unlink {a} {p}"),
             Op::PollSpawn(a) => write!(f, "pollspawn {a}"),
             Op::DropSpawn(a) => write!(f, "dropspawn {a}"),
             Op::Poll(a) => write!(f, "poll {a}"),
@@ -80,6 +91,17 @@ fn parse_op(line: &str) -> Option<Op> {
                 if nm == "-" { None } else { Some(nm.to_string()) },
             )
         }
+        ["spawninstant", a, sup, name] | ["spawninstant", a, sup, name, _] => {
+            let s = sup.strip_prefix("sup=")?;
+            let nm = name.strip_prefix("name=")?;
+            Op::SpawnInstant(
+                n(a)?,
+                if s == "-" { None } else { Some(n(s)?) },
+                if nm == "-" { None } else { Some(nm.to_string()) },
+            )
+        }
+        ["link", a, p] => Op::Link(n(a)?, n(p)?),
+        ["unlink", a, p] => Op::Unlink(n(a)?, n(p)?),
         ["wait", w, a] => Op::Wait(w.parse().ok()?, n(a)?),
         ["pollwait", w] => Op::PollWait(w.parse().ok()?),
         ["call", k, a] => Op::Call(k.parse().ok()?, n(a)?),
@@ -119,7 +141,12 @@ impl Run {
         let n = self.w.actors.len();
         match op {
             Op::Case(_) => true,
-            Op::Spawn(a, sup, _) => *a == n && sup.is_none_or(|p| p < n && self.w.me(p).is_some()),
+            Op::Spawn(a, sup, _) | Op::SpawnInstant(a, sup, _) => {
+                *a == n && sup.is_none_or(|p| p < n && self.w.me(p).is_some())
+            }
+            Op::Unlink(a, p) => *a < n && *p < n && a != p && self.w.me(*p).is_some(),
+            // a link that would close a supervision cycle is never issued (see `would_cycle`)
+            Op::Link(a, p) => *a < n && *p < n && a != p && self.w.me(*p).is_some() && !self.w.would_cycle(*a, *p),
             Op::Wait(_, a) | Op::Call(_, a) => *a < n,
             Op::PollWait(_) | Op::PollCall(_) => true,
             Op::PollSpawn(a) | Op::DropSpawn(a) | Op::Poll(a) | Op::Abort(a) | Op::Resume(a, _) => *a < n,
@@ -151,6 +178,21 @@ impl Run {
                 }
                 self.w.spawn_any(*sup, name.as_deref()).await;
             }
+            Op::SpawnInstant(_, sup, name) => {
+                self.stats.bump(if sup.is_some() { "op.spawninstant-linked" } else { "op.spawninstant" });
+                if name.is_some() {
+                    self.stats.bump("op.spawn-named");
+                }
+                self.w.spawn_instant(*sup, name.as_deref());
+            }
+            Op::Link(a, p) => {
+                self.stats.bump(&format!("op.link@{}", open_of(&self.w, *a)));
+                self.w.link(*a, *p);
+            }
+            Op::Unlink(a, p) => {
+                self.stats.bump(&format!("op.unlink@{}", open_of(&self.w, *a)));
+                self.w.unlink(*a, *p);
+            }
             Op::Wait(w, a) => {
                 self.stats.bump("op.wait");
                 self.w.wait(*w, *a);
@@ -168,10 +210,22 @@ impl Run {
                 self.w.pollcall(*k);
             }
             Op::PollSpawn(a) => {
+                if self.w.actors[*a].unstarted_instant() {
+                    let me = self.w.me(*a);
+                    let (stop_open, sig_open) = me.map(|m| m.get_cell().verif_ports_open()).unwrap_or((true, true));
+                    self.stats.bump(&format!(
+                        "op.pollspawn.instant-first{}{}",
+                        if sig_open { "" } else { "+kill-pending" },
+                        if stop_open { "" } else { "+stop-pending" }
+                    ));
+                }
                 self.stats.bump("op.pollspawn");
                 self.w.pollspawn_any(*a).await;
             }
             Op::DropSpawn(a) => {
+                if self.w.actors[*a].inst_task.is_some() {
+                    self.stats.bump("op.dropspawn.instant");
+                }
                 self.stats.bump(&format!("op.dropspawn@{}", open_of(&self.w, *a)));
                 self.w.dropspawn_any(*a).await;
             }
@@ -230,7 +284,7 @@ impl Run {
                 }
                 ["emit", _, kind, ..] => self.stats.bump(&format!("obs.emit.{kind}")),
                 ["cancelled", _, cb] => self.stats.bump(&format!("obs.cancelled.{cb}")),
-                ["ret", r] if matches!(op, Op::Spawn(..) | Op::PollSpawn(_)) => {
+                ["ret", r] if matches!(op, Op::Spawn(..) | Op::PollSpawn(_) | Op::SpawnInstant(..)) => {
                     let r = if r.starts_with("Err(startup:") { "Err(startup)" } else { r };
                     self.stats.bump(&format!("obs.spawn.{r}"))
                 }
@@ -275,7 +329,7 @@ impl Run {
             }
         }
         let line = match &op {
-            Op::Spawn(..) if self.w.local.is_some() => format!("{op} kind=local"),
+            Op::Spawn(..) | Op::SpawnInstant(..) if self.w.local.is_some() => format!("{op} kind=local"),
             _ => op.to_string(),
         };
         self.log.rec(line, obs);
@@ -300,7 +354,7 @@ impl Run {
                     moved = true;
                 }
                 if self.w.actors[a].spawn_alive() {
-                    if self.w.actors[a].seg_pending {
+                    if self.w.actors[a].seg_pending || self.w.actors[a].unstarted_instant() {
                         self.exec(Op::PollSpawn(a)).await;
                         moved = true;
                     }
@@ -386,7 +440,11 @@ impl Run {
                 let with_cell: Vec<usize> = (0..n).filter(|&p| self.w.me(p).is_some()).collect();
                 let sup = if !with_cell.is_empty() && rng.chance(8, 10) { Some(*rng.pick(&with_cell)) } else { None };
                 let name = if rng.chance(3, 10) { Some(format!("n{}", rng.range(1, 2))) } else { None };
-                cand.push((if n == 0 { 1000 } else { 40 }, Op::Spawn(n, sup, name)));
+                if rng.chance(3, 10) {
+                    cand.push((if n == 0 { 1000 } else { 40 }, Op::SpawnInstant(n, sup, name)));
+                } else {
+                    cand.push((if n == 0 { 1000 } else { 40 }, Op::Spawn(n, sup, name)));
+                }
             }
             for a in 0..n {
                 let (sa, tl, open, pend, runnable) = {
@@ -395,7 +453,8 @@ impl Run {
                 };
                 let live = sa || tl;
                 if sa {
-                    cand.push((if pend { 120 } else { 6 }, Op::PollSpawn(a)));
+                    let unst = self.w.actors[a].unstarted_instant();
+                    cand.push((if pend { 120 } else if unst { 25 } else { 6 }, Op::PollSpawn(a)));
                     cand.push((3 * wild, Op::DropSpawn(a)));
                 }
                 if tl {
@@ -415,6 +474,13 @@ impl Run {
                     cand.push(((wild + 1) * k / 2, Op::Stop(a, r)));
                     cand.push(((wild + 1) * k / 2, Op::Drain(a)));
                     cand.push((k, Op::Call(100 + self.fresh(), a)));
+                    let others: Vec<usize> = (0..n).filter(|&p| p != a && self.w.me(p).is_some()).collect();
+                    if !others.is_empty() {
+                        let p = *rng.pick(&others);
+                        cand.push(((wild + 1) * k / 3, Op::Link(a, p)));
+                        let q = *rng.pick(&others);
+                        cand.push(((wild + 1) * k / 4, Op::Unlink(a, q)));
+                    }
                     cand.push((k / 2, Op::Wait(100 + self.fresh(), a)));
                 }
             }
@@ -461,7 +527,7 @@ impl Run {
                 x -= wt;
             }
             let tgt = match &chosen {
-                Op::Send(a, _) | Op::Stop(a, _) | Op::Kill(a) | Op::Drain(a) => Some(*a),
+                Op::Send(a, _) | Op::Stop(a, _) | Op::Kill(a) | Op::Drain(a) | Op::Link(a, _) | Op::Unlink(a, _) => Some(*a),
                 _ => None,
             };
             if tgt.is_some_and(|a| !self.alive(a)) {
@@ -648,6 +714,152 @@ impl Run {
     }
 }
 
+impl Run {
+    /// Instant-spawn arrival sweep: what reaches the cell while it is still `Unstarted`
+    /// (message, relink, stop, kill, drain: 32 subsets) x linked or not x {first poll, abort} of the
+    /// start task; then the same with the arrivals during `pre_start`.
+    async fn instant_sweep(&mut self, id0: u64) -> u64 {
+        let ok = || Seg { fx: vec![], term: Term::Ok };
+        let mut id = id0;
+        for linked in [false, true] {
+            for during_pre in [false, true] {
+                for fill in 0u32..32 {
+                    for next in ["poll", "drop", "err"] {
+                        self.exec(Op::Case(id)).await;
+                        id += 1;
+                        self.stats.bump("instantsweep.cases");
+                        self.exec(Op::Spawn(0, None, None)).await;
+                        self.exec(Op::Resume(0, ok())).await;
+                        self.exec(Op::PollSpawn(0)).await;
+                        self.exec(Op::Spawn(1, None, None)).await;
+                        self.exec(Op::Resume(1, ok())).await;
+                        self.exec(Op::PollSpawn(1)).await;
+                        self.exec(Op::SpawnInstant(2, if linked { Some(0) } else { None }, None)).await;
+                        if during_pre {
+                            self.exec(Op::PollSpawn(2)).await;
+                        }
+                        if fill & 1 != 0 {
+                            self.exec(Op::Send(2, 200)).await;
+                        }
+                        if fill & 2 != 0 {
+                            self.exec(Op::Link(2, 1)).await;
+                        }
+                        if fill & 16 != 0 {
+                            self.exec(Op::Drain(2)).await;
+                        }
+                        if fill & 4 != 0 {
+                            self.exec(Op::Stop(2, Some("r1".into()))).await;
+                        }
+                        if fill & 8 != 0 {
+                            self.exec(Op::Kill(2)).await;
+                        }
+                        match next {
+                            "poll" => self.exec(Op::PollSpawn(2)).await,
+                            "drop" => self.exec(Op::DropSpawn(2)).await,
+                            _ => {
+                                if !during_pre {
+                                    self.exec(Op::PollSpawn(2)).await;
+                                }
+                                self.exec(Op::Resume(2, Seg { fx: vec![], term: Term::Err(7) })).await;
+                                self.exec(Op::PollSpawn(2)).await;
+                            }
+                        }
+                        self.exec(Op::Send(2, 201)).await;
+                        self.finish_case().await;
+                    }
+                }
+            }
+        }
+        id
+    }
+
+    /// Re-link sweep: a supervised actor (child of 0, with its own child 2, another possible
+    /// supervisor 3) is re-linked / unlinked through the public API in every phase, then runs on,
+    /// fails, or is killed: every later event must go to the supervisor of that instant.
+    async fn relink_sweep(&mut self, id0: u64) -> u64 {
+        let ok = || Seg { fx: vec![], term: Term::Ok };
+        let phases = ["pre", "ready", "post_start", "idle", "handle", "post_stop"];
+        let mut id = id0;
+        for (pi, phase) in phases.iter().enumerate() {
+            for variant in 0..5u32 {
+                for next in ["ok", "err", "kill", "stop"] {
+                    self.exec(Op::Case(id)).await;
+                    id += 1;
+                    self.stats.bump("relinksweep.cases");
+                    let mut pre: Vec<Op> = vec![
+                        Op::Spawn(0, None, None),
+                        Op::Resume(0, ok()),
+                        Op::PollSpawn(0),
+                        Op::Spawn(1, Some(0), None),
+                        Op::Spawn(2, Some(1), None),
+                        Op::Resume(2, ok()),
+                        Op::PollSpawn(2),
+                        Op::Poll(2),
+                        Op::Spawn(3, None, None),
+                        Op::Resume(3, ok()),
+                        Op::PollSpawn(3),
+                    ];
+                    if pi >= 1 {
+                        pre.extend([Op::Resume(1, ok()), Op::PollSpawn(1)]);
+                    }
+                    if pi >= 2 {
+                        pre.push(Op::Poll(1));
+                    }
+                    if pi >= 3 {
+                        pre.extend([Op::Resume(1, ok()), Op::Poll(1)]);
+                    }
+                    match *phase {
+                        "handle" => pre.extend([Op::Send(1, 100), Op::Poll(1)]),
+                        "post_stop" => pre.extend([Op::Stop(1, None), Op::Poll(1)]),
+                        _ => {}
+                    }
+                    for op in pre {
+                        self.exec(op).await;
+                    }
+                    match variant {
+                        0 => self.exec(Op::Link(1, 3)).await,
+                        1 => self.exec(Op::Unlink(1, 0)).await,
+                        2 => {
+                            self.exec(Op::Link(1, 3)).await;
+                            self.exec(Op::Link(1, 0)).await;
+                        }
+                        3 => {
+                            self.exec(Op::Unlink(1, 0)).await;
+                            self.exec(Op::Link(1, 3)).await;
+                        }
+                        _ => {
+                            self.exec(Op::Unlink(1, 3)).await;
+                            self.exec(Op::Link(1, 1 + 2)).await;
+                            self.exec(Op::Unlink(1, 3)).await;
+                        }
+                    }
+                    let pollop = if *phase == "pre" { Op::PollSpawn(1) } else { Op::Poll(1) };
+                    let has_open = !matches!(*phase, "ready" | "idle");
+                    match next {
+                        "kill" => {
+                            self.exec(Op::Kill(1)).await;
+                            self.exec(pollop).await;
+                        }
+                        "stop" => {
+                            self.exec(Op::Stop(1, Some("r2".into()))).await;
+                            self.exec(pollop).await;
+                        }
+                        t => {
+                            if has_open {
+                                let term = if t == "ok" { Term::Ok } else { Term::Err(7) };
+                                self.exec(Op::Resume(1, Seg { fx: vec![], term })).await;
+                            }
+                            self.exec(pollop).await;
+                        }
+                    }
+                    self.finish_case().await;
+                }
+            }
+        }
+        id
+    }
+}
+
 fn main() {
     let args = Args::parse();
     let seed = args.u64("seed", 1);
@@ -697,6 +909,8 @@ fn main() {
         if do_sweep {
             id = run.sweep(id).await;
             id = run.spawn_sweep(id).await;
+            id = run.instant_sweep(id).await;
+            id = run.relink_sweep(id).await;
         }
         let _ = id;
         // 3. structured random cases
